@@ -90,6 +90,10 @@ func NewDiskQueue(name string, dataPath string, maxBytesPerFile int64, syncEvery
 		log.Printf("ERROR: diskqueue(%s) failed to retrieveMetaData - %s", d.name, err.Error())
 	}
 
+	// an instance that was not closed cleanly may have left data beyond the
+	// persisted write position. drop it before anything can read it
+	d.truncateWriteFile()
+
 	go d.ioLoop()
 
 	return &d
@@ -404,6 +408,26 @@ func (d *DiskQueue) retrieveMetaData() error {
 	d.nextReadPos = d.readPos
 
 	return nil
+}
+
+// truncateWriteFile cuts the current write file back to the persisted write position.
+// Bytes beyond it were never covered by a completed sync and are about to be
+// overwritten by the next write; without this the reader (which buffers ahead)
+// could hand out that stale data instead of what gets written over it.
+func (d *DiskQueue) truncateWriteFile() {
+	fileName := d.fileName(d.writeFileNum)
+	fileInfo, err := os.Stat(fileName)
+	if err != nil {
+		return
+	}
+	if fileInfo.Size() > d.writePos {
+		log.Printf("DISKQUEUE(%s): %s is %d bytes but the persisted write position is %d, truncating",
+			d.name, fileName, fileInfo.Size(), d.writePos)
+		err = os.Truncate(fileName, d.writePos)
+		if err != nil {
+			log.Printf("ERROR: diskqueue(%s) failed to truncate %s - %s", d.name, fileName, err.Error())
+		}
+	}
 }
 
 // persistMetaData atomically writes state to the filesystem
